@@ -33,6 +33,8 @@ func main() {
 	switch os.Args[1] {
 	case "verify":
 		cmdVerify(os.Args[2:])
+	case "lemmas":
+		cmdLemmas(os.Args[2:])
 	default:
 		fmt.Fprintln(os.Stderr, "unknown command")
 		os.Exit(2)
@@ -66,17 +68,10 @@ func cmdVerify(args []string) {
 		fmt.Fprintln(os.Stderr, "contract error:", err)
 		os.Exit(2)
 	}
-	pre, err := os.ReadFile(*prelude)
-	if err != nil {
+	g := &Gen{P: P, CS: cs, tags: map[string]int{}, MaxInl: 4}
+	if err := g.loadPreludes(filepath.Dir(*prelude)); err != nil {
 		fmt.Fprintln(os.Stderr, "prelude:", err)
 		os.Exit(2)
-	}
-	g := &Gen{P: P, CS: cs, tags: map[string]int{}, Prelude: string(pre), MaxInl: 4}
-	if b, err := os.ReadFile(filepath.Join(filepath.Dir(*prelude), "conv_uf.smt2")); err == nil {
-		g.ConvUF = string(b)
-	}
-	if b, err := os.ReadFile(filepath.Join(filepath.Dir(*prelude), "conv_exact.smt2")); err == nil {
-		g.ConvExact = string(b)
 	}
 	if *smtDir == "" {
 		d, _ := os.MkdirTemp("", "slimvc")
